@@ -23,7 +23,7 @@ theorem attached_of_rows {s s' : St} (h : ∀ e, row s' e = row s e) (o : Obj) :
     Attached s' o ↔ Attached s o := by
   simp only [Attached, h]
 
-theorem attached_sameTables {s s' : St} (h : SameTables s s') (o : Obj) : Attached s' o ↔ Attached s o :=
+theorem attached_sameTables {s s' : St} (h : SameTables U s s') (o : Obj) : Attached s' o ↔ Attached s o :=
   attached_of_rows (fun e => row_of_ents h.ents e) o
 
 theorem oneOwner_of_rows {s s' : St} (h : ∀ e, row s' e = row s e) (ho : OneOwner s) : OneOwner s' := by
@@ -107,13 +107,13 @@ namespace Desper.World
 open Desper
 
 /-- complete description of `remove_component` when no callback raises -/
-theorem removeComponent_full {U : Universe} (hn : NoRaise U) (s : St) (e : Ent) (t : Ty) :
+theorem removeComponent_full {U : Universe} [U.Passive] (hn : NoRaise U) (s : St) (e : Ent) (t : Ty) :
     ((visit U t).find? (fun st => (Dict.get? (row s e) st).isSome) = none ∧
         removeComponent U s e t = (s, .ok, none)) ∨
     (∃ st c, (visit U t).find? (fun st => (Dict.get? (row s e) st).isSome) = some st ∧
         Dict.get? (row s e) st = some c ∧ (removeComponent U s e t).2.1 = .ok ∧
         (removeComponent U s e t).2.2 = some c ∧
-        SameTables (detach s e st) (removeComponent U s e t).1 ∧
+        SameTables U (detach s e st) (removeComponent U s e t).1 ∧
         (removeComponent U s e t).1.registered =
           if (U.mapOf c).isSome then s.registered.filter (· ≠ c) else s.registered) := by
   unfold removeComponent
@@ -143,7 +143,7 @@ theorem removeComponent_full {U : Universe} (hn : NoRaise U) (s : St) (e : Ent) 
         show s'.registered.filter (· ≠ c) = _
         rw [h3, detach_reg]
 
-theorem regInv_removeComponent {U : Universe} (hn : NoRaise U) {s : St} (h : RegInv U s) (e : Ent)
+theorem regInv_removeComponent {U : Universe} [U.Passive] (hn : NoRaise U) {s : St} (h : RegInv U s) (e : Ent)
     (t : Ty) : RegInv U (removeComponent U s e t).1 := by
   rcases removeComponent_full hn s e t with ⟨_, heq⟩ | ⟨st, c, _, hc, _, _, hsame, hreg⟩
   · rw [heq]; exact h
@@ -172,7 +172,7 @@ theorem regInv_removeComponent {U : Universe} (hn : NoRaise U) {s : St} (h : Reg
       rw [hsorted]
       exact h.disj o ((hatt o).mp ho).1
 
-theorem regInv_removeTypes {U : Universe} (hn : NoRaise U) {s : St} (h : RegInv U s) (e : Ent)
+theorem regInv_removeTypes {U : Universe} [U.Passive] (hn : NoRaise U) {s : St} (h : RegInv U s) (e : Ent)
     (ts : List Ty) : RegInv U (removeTypes U s e ts).1 := by
   induction ts generalizing s with
   | nil => exact h
@@ -310,7 +310,7 @@ theorem preReg_foldAttach {U : Universe} (e : Ent) (cs : List Obj) :
       · exact .inl (.inl h2)
       · exact .inr h2
 
-theorem preReg_attachAll {U : Universe} (hn : NoRaise U) (e : Ent) (cs : List Obj) :
+theorem preReg_attachAll {U : Universe} [U.Passive] (hn : NoRaise U) (e : Ent) (cs : List Obj) :
     ∀ (s : St) (pending : List Obj), PreReg U s pending → cs.Nodup → (∀ c ∈ cs, c ∈ pending) →
       (attachAll U s e cs).2 = .ok ∧
       PreReg U (attachAll U s e cs).1 (pending.filter (fun o => !cs.contains o)) := by
@@ -354,7 +354,7 @@ end Desper.World
 namespace Desper.World
 open Desper
 
-theorem attached_removeComponent_sub {U : Universe} (hn : NoRaise U) {s : St} (h : OneOwner s) (e : Ent)
+theorem attached_removeComponent_sub {U : Universe} [U.Passive] (hn : NoRaise U) {s : St} (h : OneOwner s) (e : Ent)
     (t : Ty) (o : Obj) : Attached (removeComponent U s e t).1 o → Attached s o := by
   rcases removeComponent_full hn s e t with ⟨_, heq⟩ | ⟨st, c, _, hc, _, _, hsame, _⟩
   · rw [heq]; exact id
@@ -365,7 +365,7 @@ theorem attached_removeComponent_sub {U : Universe} (hn : NoRaise U) {s : St} (h
 theorem removeComponent_sorted (U : Universe) (s : St) (e : Ent) (t : Ty) :
     (removeComponent U s e t).1.sorted = s.sorted := (removeComponent_procs U s e t).sorted
 
-theorem attached_removeTypes_sub {U : Universe} (hn : NoRaise U) (e : Ent) (ts : List Ty) :
+theorem attached_removeTypes_sub {U : Universe} [U.Passive] (hn : NoRaise U) (e : Ent) (ts : List Ty) :
     ∀ s : St, RegInv U s → ∀ o, Attached (removeTypes U s e ts).1 o → Attached s o := by
   induction ts with
   | nil => intro s _ o h; exact h
@@ -388,7 +388,7 @@ type condition) -/
 def FreshCreate (U : Universe) (s : St) (cs : List Obj) : Prop :=
   cs.Nodup ∧ (cs.map (tyOf U)).Nodup ∧ ∀ c ∈ cs, ¬ Attached s c ∧ c ∉ s.sorted
 
-theorem regInv_createAt {U : Universe} (hn : NoRaise U) {s : St} (ht : TabInv U s) (h : RegInv U s)
+theorem regInv_createAt {U : Universe} [U.Passive] (hn : NoRaise U) {s : St} (ht : TabInv U s) (h : RegInv U s)
     (e : Ent) (cs : List Obj) (hf : FreshCreate U s cs) :
     RegInv U (match removeTypes U s e ((Dict.keys (row s e)).filter
           (fun t => cs.any (fun c => tyOf U c = t))) with
@@ -447,7 +447,7 @@ theorem regInv_fields {U : Universe} {s s' : St} (h : RegInv U s) (he : s'.ents 
   · intro o ho; rw [hr, hatt, hs]; exact h.reg o ho
   · intro o ho; rw [hs]; exact h.disj o ((hatt o).mp ho)
 
-theorem regInv_createEntity {U : Universe} (hn : NoRaise U) {s : St} (ht : TabInv U s) (h : RegInv U s)
+theorem regInv_createEntity {U : Universe} [U.Passive] (hn : NoRaise U) {s : St} (ht : TabInv U s) (h : RegInv U s)
     (id? : Option Ent) (cs : List Obj) (hf : FreshCreate U s cs) :
     RegInv U (createEntity U s id? cs).1 := by
   unfold createEntity
@@ -474,7 +474,7 @@ theorem regInv_attachOne {U : Universe} (hn : NoRaise U) {s : St} (h : RegInv U 
   rw [this] at h2
   exact regInv_of_preReg h2
 
-theorem regInv_addComponent {U : Universe} (hn : NoRaise U) {s : St} (h : RegInv U s) (e : Ent)
+theorem regInv_addComponent {U : Universe} [U.Passive] (hn : NoRaise U) {s : St} (h : RegInv U s) (e : Ent)
     (c : Obj) (hfresh : ¬ Attached s c) (hns : c ∉ s.sorted) : RegInv U (addComponent U s e c).1 := by
   unfold addComponent
   simp only
@@ -498,7 +498,7 @@ theorem regInv_addComponent {U : Universe} (hn : NoRaise U) {s : St} (h : RegInv
         rw [row_of_ents hsame.ents, row_detach]; simp
       exact regInv_attachOne hn hreg e c hslot (fun ha => hfresh (hsub ha)) (by rw [hsorted]; exact hns)
 
-theorem regInv_deleteEntity {U : Universe} (hn : NoRaise U) {s : St} (h : RegInv U s) (e : Ent)
+theorem regInv_deleteEntity {U : Universe} [U.Passive] (hn : NoRaise U) {s : St} (h : RegInv U s) (e : Ent)
     (imm : Bool) : RegInv U (deleteEntity U s e imm).1 := by
   unfold deleteEntity
   split
@@ -507,7 +507,7 @@ theorem regInv_deleteEntity {U : Universe} (hn : NoRaise U) {s : St} (h : RegInv
     · exact regInv_removeTypes hn h e _
   · exact regInv_fields h rfl rfl rfl
 
-theorem regInv_sweep {U : Universe} (hn : NoRaise U) {s : St} (h : RegInv U s) (es : List Ent) :
+theorem regInv_sweep {U : Universe} [U.Passive] (hn : NoRaise U) {s : St} (h : RegInv U s) (es : List Ent) :
     RegInv U (sweep U s es).1 := by
   induction es generalizing s with
   | nil => exact h
@@ -524,7 +524,7 @@ theorem regInv_sweep {U : Universe} (hn : NoRaise U) {s : St} (h : RegInv U s) (
         · exact ih h1
         all_goals exact h1
 
-theorem regInv_process {U : Universe} (hn : NoRaise U) {s : St} (h : RegInv U s) (dt : String) :
+theorem regInv_process {U : Universe} [U.Passive] (hn : NoRaise U) {s : St} (h : RegInv U s) (dt : String) :
     RegInv U (process U s dt).1 := by
   unfold process
   have h1 : RegInv U (clearDead U s).1 := by
@@ -546,11 +546,11 @@ end Desper.World
 namespace Desper.World
 open Desper
 
-theorem removeProcessor_full {U : Universe} (hn : NoRaise U) (s : St) (t : Ty) :
+theorem removeProcessor_full {U : Universe} [U.Passive] (hn : NoRaise U) (s : St) (t : Ty) :
     ((visit U t).find? (fun st => (Dict.get? s.procs st).isSome) = none ∧
         removeProcessor U s t = (s, .ok, none)) ∨
     (∃ st p, Dict.get? s.procs st = some p ∧ (removeProcessor U s t).2.1 = .ok ∧
-        SameTables (dropProc U s st) (removeProcessor U s t).1 ∧
+        SameTables U (dropProc U s st) (removeProcessor U s t).1 ∧
         (removeProcessor U s t).1.registered =
           if (U.mapOf p).isSome then s.registered.filter (· ≠ p) else s.registered) := by
   unfold removeProcessor
@@ -580,7 +580,7 @@ theorem removeProcessor_full {U : Universe} (hn : NoRaise U) (s : St) (t : Ty) :
         show s'.registered.filter (· ≠ p) = _
         rw [h3]; rfl
 
-theorem regInv_removeProcessor {U : Universe} (hn : NoRaise U) {s : St} (hp : PInv U s)
+theorem regInv_removeProcessor {U : Universe} [U.Passive] (hn : NoRaise U) {s : St} (hp : PInv U s)
     (h : RegInv U s) (t : Ty) : RegInv U (removeProcessor U s t).1 := by
   rcases removeProcessor_full hn s t with ⟨_, heq⟩ | ⟨st, p, hg, _, hsame, hreg⟩
   · rw [heq]; exact h
@@ -619,7 +619,7 @@ theorem regInv_removeProcessor {U : Universe} (hn : NoRaise U) {s : St} (hp : PI
     · intro o ho hm
       exact h.disj o ((hatt o).mp ho) ((hsorted o).mp hm).1
 
-theorem regInv_addProcessor {U : Universe} (hn : NoRaise U) {s : St} (hp : PInv U s) (h : RegInv U s)
+theorem regInv_addProcessor {U : Universe} [U.Passive] (hn : NoRaise U) {s : St} (hp : PInv U s) (h : RegInv U s)
     (p : Obj) (prio? : Option Int) (hfresh : ¬ Attached s p) :
     RegInv U (addProcessor U s p prio?).1 := by
   unfold addProcessor
@@ -698,7 +698,7 @@ theorem deleteAll_eq_sweep (U : Universe) (s : St) (es : List Ent) :
       | mk s' o => cases o <;> simp only [ih]
 
 /-- removing the processors one by one (the loop of `clear`) leaves none -/
-theorem removeProcs_empties {U : Universe} (hn : NoRaise U) (ps : List Obj) :
+theorem removeProcs_empties {U : Universe} [U.Passive] (hn : NoRaise U) (ps : List Obj) :
     ∀ s : St, PInv U s → ps.Nodup → (∀ q, q ∈ s.sorted ↔ q ∈ ps) →
       (removeProcs U s ps).2 = .ok ∧ (removeProcs U s ps).1.sorted = [] := by
   induction ps with
@@ -793,7 +793,7 @@ theorem regInv_empty {U : Universe} {s : St} (hrows : ∀ e, (Dict.get? s.ents e
     exact absurd ⟨e, t, h1⟩ (hnoatt o)
   · intro o h1; exact absurd h1 (hnoatt o)
 
-theorem regInv_clear {U : Universe} (hn : NoRaise U) {s : St} (ht : TabInv U s) (hp : PInv U s) :
+theorem regInv_clear {U : Universe} [U.Passive] (hn : NoRaise U) {s : St} (ht : TabInv U s) (hp : PInv U s) :
     RegInv U (clear U s).1 := by
   unfold clear
   rw [deleteAll_eq_sweep]
@@ -836,7 +836,7 @@ def opFresh (U : Universe) (s : St) : Op → Prop
   | .addProc p _ => ¬ Attached s p
   | _ => True
 
-theorem regInv_step {U : Universe} (hn : NoRaise U) {s : St} (ht : TabInv U s) (hp : PInv U s)
+theorem regInv_step {U : Universe} [U.Passive] (hn : NoRaise U) {s : St} (ht : TabInv U s) (hp : PInv U s)
     (h : RegInv U s) (op : Op) (hf : opFresh U s op) : RegInv U (step U s op).1 := by
   cases op with
   | create id? cs => exact regInv_createEntity hn ht h id? cs hf
@@ -864,7 +864,7 @@ def FreshHist (U : Universe) : St → List Op → Prop
   | _, [] => True
   | s, op :: ops => opFresh U s op ∧ FreshHist U (step U s op).1 ops
 
-theorem regInv_run_from {U : Universe} (hn : NoRaise U) (ops : List Op) :
+theorem regInv_run_from {U : Universe} [U.Passive] (hn : NoRaise U) (ops : List Op) :
     ∀ s : St, TabInv U s → PInv U s → RegInv U s → FreshHist U s ops → RegInv U (run U s ops) := by
   induction ops with
   | nil => intro s _ _ h _; exact h
@@ -872,7 +872,7 @@ theorem regInv_run_from {U : Universe} (hn : NoRaise U) (ops : List Op) :
     intro s ht hp h hf
     exact ih (step U s op).1 (tabInv_step ht op) (pinv_step hp op) (regInv_step hn ht hp h op hf.1) hf.2
 
-theorem regInv_run {U : Universe} (hn : NoRaise U) (hints : List (List Ent)) (ops : List Op)
+theorem regInv_run {U : Universe} [U.Passive] (hn : NoRaise U) (hints : List (List Ent)) (ops : List Op)
     (hf : FreshHist U { sweepHints := hints } ops) : RegInv U (run U { sweepHints := hints } ops) :=
   regInv_run_from hn ops _ (tabInv_init U hints) (pinv_init U hints)
     (regInv_empty (by intro e; rfl) rfl rfl) hf
